@@ -17,7 +17,7 @@ from concurrent.futures import ThreadPoolExecutor
 sys.path.insert(0, os.path.dirname(__file__))
 from mutants import MUTANTS
 
-PROPS = ["C01", "C02", "C03", "C04", "C06", "C07", "C08", "C09", "C10", "C12", "C13", "C14", "C15", "C16", "C20"]
+PROPS = os.environ["VERIF_PROPS"].split() if os.environ.get("VERIF_PROPS") else ["C01", "C02", "C03", "C04", "C06", "C07", "C08", "C09", "C10", "C12", "C13", "C14", "C15", "C16", "C20"]
 VERIF = "/verif"
 # sources of the simulator: the working tree, or a snapshot of an earlier commit (to measure what an earlier
 # version of the checks would have caught)
@@ -69,7 +69,8 @@ def evaluate(tag, apply, runs, baseline, threads):
         caught = {}
         for p in PROPS:
             n = runs // 4 if p == "C04" else runs
-            r = sh(f"{root}/sim/target/release/cozy-sim run --prop {p} --runs {n} --seed 1 --threads {threads} --known {SRC}/known_findings.txt --replay-dir {root}/replays", cwd=root)
+            lat = 0 if p == "C04" else 107648
+            r = sh(f"{root}/sim/target/release/cozy-sim run --prop {p} --runs {n} --seed 1 --threads {threads} --known {SRC}/known_findings.txt --replay-dir {root}/replays --lattice {lat}", cwd=root)
             if r.returncode == 1:
                 cls = [l.split("class:")[1].strip() for l in r.stdout.splitlines() if l.strip().startswith("class:")]
                 caught[p] = cls[0] if cls else "?"
